@@ -134,6 +134,9 @@ type TSyncCase struct {
 	ProbesEach int      `json:"probes_each"`
 	SpawnAfter int      `json:"spawn_after"` // threads created after the load
 	ProbeNR    uint64   `json:"probe_nr"`
+	// SideLoadAtHook: while the judged load is between its prctl and its seccomp call, another thread loads a different
+	// policy with other flags (no thread-sync) and exits before the judged load goes on.
+	SideLoadAtHook bool `json:"side_load_at_hook,omitempty"`
 }
 
 // NNPCase: no_new_privs ordering and pinning (C11).
